@@ -28,6 +28,7 @@ func c06(c *Ctx) {
 	c06get(c)
 	c06invalidate(c)
 	c06index(c)
+	c06indexKey(c)
 	c06sharedBarrier(c)
 	c06takeWithExpire(c)
 	c06barrierPanic(c)
@@ -444,10 +445,23 @@ func c06doTake(c *Ctx) {
 		return true, ""
 	})
 
-	// R3: load suppression
-	ps2 := c.paths("C06.R3", f, px.Config{})
+	c06barrierUse(c, "C06.R3")
+}
+
+// c06barrierUse: how the cache-aside node uses the single flight (also run under C07: the node is the flight's main
+// in-tree user, and "every caller receives the value and error of its own or an overlapping execution" is decided here).
+func c06barrierUse(c *Ctx, r3 string) {
+	f := c.fn(r3, cachePkg, "(cacheNode).doTake")
+	if f == nil {
+		return
+	}
+	cl := c.closure(r3, f, "barrier closure", func(a *ssa.Function) bool { return a.Parent() == f })
+	if cl == nil {
+		return
+	}
+	ps2 := c.paths(r3, f, px.Config{})
 	keyP := paramOfType(f, "string")
-	c.forall("C06.R3", cachePkg+".(cacheNode).doTake", "the query runs only inside the closure handed to c.barrier.DoEx(key, …) keyed by the cache key", f, ps2, func(p *px.Path) (bool, string) {
+	c.forall(r3, cachePkg+".(cacheNode).doTake", "the query runs only inside the closure handed to c.barrier.DoEx(key, …) keyed by the cache key", f, ps2, func(p *px.Path) (bool, string) {
 		if p.Has(func(e *px.Event) bool { return e.Kind == px.EvCall && e.Call.IsDyn() && e.Call.FnSym.Kind == px.KParam }) {
 			return false, "query/cacheVal invoked outside the barrier"
 		}
@@ -1036,10 +1050,79 @@ func c06index(c *Ctx) {
 	})
 }
 
+// c06indexKey (R6b, round 5): the primary key found in the index entry is used as it was decoded. The argument of
+// keyer(…) and of primaryQuery(…) is the primaryKey variable that TakeWithExpireCtx / the index query filled —
+// no conversion in between: the primary entry was cached under keyer(<the index query's value>), and a re-typed
+// copy (json.Number → int64/float64) renders differently for keys beyond int64 and misses it (seed r5-C06-2).
+func c06indexKey(c *Ctx) {
+	rule := "C06.R6"
+	f := c.fn(rule, "core/stores/sqlc", "(CachedConn).QueryRowIndexCtx")
+	if f == nil {
+		return
+	}
+	var keyerP, primP, idxP *ssa.Parameter
+	for _, p := range f.Params {
+		switch {
+		case p.Name() == "keyer" || typeString(p.Type()) == "func(primary any) string" || typeString(p.Type()) == "func(any) string":
+			keyerP = p
+		case strings.HasSuffix(typeString(p.Type()), "PrimaryQueryCtxFn"):
+			primP = p
+		case strings.HasSuffix(typeString(p.Type()), "IndexQueryCtxFn"):
+			idxP = p
+		}
+	}
+	if keyerP == nil || primP == nil || idxP == nil {
+		c.R.Undecided(rule, "core/stores/sqlc.(CachedConn).QueryRowIndexCtx#key", "anchor resolves", "keyer / primaryQuery / indexQuery parameters not found")
+		return
+	}
+	var bad []string
+	sites := 0
+	walkWithClosures(f, func(g *ssa.Function) {
+		for _, b := range g.Blocks {
+			for _, ins := range b.Instrs {
+				call, ok := ins.(ssa.CallInstruction)
+				if !ok || call.Common().IsInvoke() || call.Common().StaticCallee() != nil {
+					continue
+				}
+				var arg ssa.Value
+				switch {
+				case valueIsParam(call.Common().Value, keyerP, g) && len(call.Common().Args) == 1:
+					arg = call.Common().Args[0]
+				case valueIsParam(call.Common().Value, primP, g) && len(call.Common().Args) >= 1:
+					arg = call.Common().Args[len(call.Common().Args)-1]
+				default:
+					continue
+				}
+				sites++
+				for _, d := range reachingDefs(arg, g, 0) {
+					switch x := d.(type) {
+					case *ssa.Extract:
+						if cl, ok := x.Tuple.(*ssa.Call); ok && valueIsParam(cl.Call.Value, idxP, cl.Parent()) {
+							continue
+						}
+						bad = append(bad, fmt.Sprintf("%s: the key handed on comes from %s", c.P.Pos(ins.Pos()), x.Tuple.Name()))
+					case *ssa.Call:
+						bad = append(bad, fmt.Sprintf("%s: the primary key is passed through %s before it is used to build the primary cache key / query: the primary entry was cached under the value the index query returned", c.P.Pos(ins.Pos()), calleeName(x.Common())))
+					case *ssa.Alloc, *ssa.Const:
+					default:
+						if _, isLoad := d.(*ssa.UnOp); isLoad {
+							continue
+						}
+						bad = append(bad, fmt.Sprintf("%s: the key handed on is derived by %T", c.P.Pos(ins.Pos()), d))
+					}
+				}
+			}
+		}
+	})
+	sort.Strings(bad)
+	c.R.Check(len(bad) == 0 && sites >= 3, rule, "core/stores/sqlc.(CachedConn).QueryRowIndexCtx#key", "keyer and primaryQuery receive the primary key exactly as the index query / the cached index entry delivered it (no conversion in between)", posOf(c, f), fmt.Sprintf("%d uses; %s", sites, strings.Join(bad, "; ")), bad, sites)
+}
+
 // c06sharedBarrier: the single-flight barrier handed to every cache is a package-level one, so that
 // readers of one key are collapsed across all connections/models of the process, not per object.
-func c06sharedBarrier(c *Ctx) {
-	rule := "C06.R3"
+func c06sharedBarrier(c *Ctx) { c06sharedBarrierAs(c, "C06.R3") }
+
+func c06sharedBarrierAs(c *Ctx, rule string) {
 	sites := 0
 	for _, pk := range c.P.Pkgs {
 		rel := strings.TrimPrefix(pk.PkgPath, mod)
@@ -1055,6 +1138,25 @@ func c06sharedBarrier(c *Ctx) {
 						continue
 					}
 					if rel == cachePkg {
+						// inside the package: a constructor that was given a barrier hands the very same barrier on
+						// (cluster mode must not give every node a private flight group: two caches built over the
+						// same multi-node configuration with one shared barrier would load a key twice)
+						root := fn
+						for root.Parent() != nil {
+							root = root.Parent()
+						}
+						var bp *ssa.Parameter
+						for _, p := range root.Params {
+							if strings.HasSuffix(typeString(p.Type()), "core/syncx.SingleFlight") {
+								bp = p
+							}
+						}
+						if bp == nil {
+							continue
+						}
+						sites++
+						cons := fmt.Sprintf("%s.%s→%s#forward", rel, fn.Name(), strings.TrimPrefix(n, mod))
+						c.R.Check(valueIsParam(call.Common().Args[1], bp, fn), rule, cons, "a cache constructor forwards the barrier it was given to the nodes it builds", c.P.Pos(ins.Pos()), "the node is built with another single flight than the caller's: load suppression is per node object, not across the caches sharing the caller's barrier", nil, 1)
 						continue
 					}
 					sites++
